@@ -47,7 +47,7 @@ class IpModel:
         """Discover the role of each constructor field from the base constructor."""
         fp = self.A.paths(self.f_init)
         self.init_stores = {}
-        for path in fp.paths:
+        for path in [x for x in fp.paths if x.feasible()]:
             for e, ls in path.stores():
                 if e.kind == "store_attr" and e.a == SELF:
                     self.init_stores.setdefault(e.b, []).append((e, path))
@@ -123,7 +123,7 @@ class IpModel:
         bits = ("param", fn.params[1])
         name = fn.name
         hits, misses = [], []
-        for path in fp.paths:
+        for path in [x for x in fp.paths if x.feasible()]:
             if path.kind == "raise":
                 rep.fail(cl + ".walk-total", name, "the walk has a raising path (%s)" % path.describe(), where(fn, path.result[2]))
                 continue
@@ -229,7 +229,7 @@ class IpModel:
         rep.analysed(fn)
         fp = self.A.paths(fn)
         ok_all = True
-        for path in fp.paths:
+        for path in [x for x in fp.paths if x.feasible()]:
             w = where(fn, path.result[2] if path.result else fn.node)
             if path.kind != "return":
                 rep.fail(cl + ".salter-total", fn.name, "salter has a non-returning path", w)
@@ -380,7 +380,7 @@ class IpModel:
         name = fn.name
         n_split = n_plain = 0
         out = {}
-        for path in fp.paths:
+        for path in [x for x in fp.paths if x.feasible()]:
             w = where(fn, path.result[2] if path.result else fn.node)
             if path.kind != "return":
                 rep.fail(cl + ".total", name, "path %s does not return" % path.describe(), w)
@@ -417,7 +417,7 @@ class IpModel:
                 rep.fail(cl + ".shape", name, "returns int(%s, 2): unrecognised composition" % show(body), w)
         rep.ob(cl + ".both-paths", name, n_split >= 1 and n_plain >= 1, "split paths: %d, unsplit paths: %d" % (n_split, n_plain), where(fn))
         # the formatted bits really are the width format of the integer
-        for path in fp.paths:
+        for path in [x for x in fp.paths if x.feasible()]:
             for e, ls in path.calls():
                 pass
         return out
@@ -428,7 +428,7 @@ class IpModel:
         fp = self.A.paths(fn)
         BITS = self.bits_term(fn)
         s = ("attr", SELF, self.SUFFIX)
-        for path in fp.paths:
+        for path in [x for x in fp.paths if x.feasible()]:
             if path.kind != "return":
                 continue
             r = path.returned()
@@ -443,7 +443,7 @@ class IpModel:
                        "split path memo stores: %s; expected exactly cache[<full bits>] = <returned bits (anonymized lead + kept suffix)>" % [repr(x) for x in stores], w,
                        key="%s.full-entry-store|%s" % (cl, fn.name))
                 # unconditional on the split path: no extra condition between split guard and store
-                extra = [c for c in path.conds if not (M.nonzero_guard([c], s) or M.zero_guard([c], s))]
+                extra = [c for c in path.conds if not (M.nonzero_guard([c], s) or M.zero_guard([c], s)) and c[0][0] != "const"]
                 rep.ob(cl + ".full-entry-unconditional", fn.name, not extra,
                        "the store is not guarded by anything but the host-bit test (extra conditions: %s)" % [show(c[0]) for c in extra], w)
             else:
@@ -456,7 +456,7 @@ class IpModel:
         rep.analysed(fn)
         fp = self.A.paths(fn)
         results = []
-        for path in fp.paths:
+        for path in [x for x in fp.paths if x.feasible()]:
             if path.kind == "raise":
                 continue
             outer = [e for e in path.effects if e.kind == "loop"]
@@ -597,6 +597,8 @@ def memo_uses(model, rep, cl):
                 changed = True
     uses = []
     for f in p.all_functions():
+        if f.qualname in helpers:
+            continue  # analysed inlined into its callers, in their context
         fp = A.paths(f)
         for e, ls, path in fp.all_effects():
             w = where(f, e.node)
@@ -621,7 +623,7 @@ def memo_uses(model, rep, cl):
                 terms.append(e.a)
             for t in terms:
                 _scan_use(model, rep, cl, f, t, w, uses, top=True)
-        for path in fp.paths:
+        for path in [x for x in fp.paths if x.feasible()]:
             if path.result and path.result[1] is not None and isinstance(path.result[1], tuple):
                 _scan_use(model, rep, cl, f, path.result[1], where(f, path.result[2]), uses, top=True, returned=True)
             for t, pol, node in path.conds:
